@@ -10,7 +10,7 @@ import tempfile
 import fontgen as fg
 
 PARTS = ["info", "kerning", "groups", "features", "lib"]
-# object kinds whose dirty flag the save/load paths never clear (finding F31, recorded per kind)
+# object kinds below the glyph: their flags were never cleared by the save/load paths (finding F31, repaired in /repo)
 BELOW_GLYPH = ("layer.lib", "glyph.lib", "contour", "component", "anchor", "guideline", "image")
 
 
